@@ -127,6 +127,10 @@ def c11_program(draw):
                 pair = [{"k": "local", "name": ln}, {"k": "insn", "mn": "nop", "ops": []}, use]
                 if draw(st.booleans()):
                     pair = [use, {"k": "local", "name": ln}, {"k": "insn", "mn": "nop", "ops": []}]
+                if draw(st.integers(0, 2)) == 0:
+                    # a definition between the two: it does not end the local scope
+                    nconst += 1
+                    pair.insert(draw(st.integers(1, len(pair) - 1)), {"k": "assign", "name": f"mid{nconst}", "e": ("num", nconst)})
                 stmts.append(pair)     # kept together: same scope, unique within it
             else:
                 stmts.append([{"k": "insn", "mn": "nop", "ops": []}])
